@@ -36,7 +36,10 @@ Record Abs (r : router) (L : live) : Prop := {
   abs_sound : forall r0 i, RM (r_root r) r0 i -> In (i_template i, i_data i) L /\ route_of_template (i_template i) r0;
   (* every expansion of a live template is stored under that template *)
   abs_complete : forall t d r0, In (t, d) L -> route_of_template t r0 ->
-                  exists i, RM (r_root r) r0 i /\ i_template i = t /\ i_data i = d
+                  exists i, RM (r_root r) r0 i /\ i_template i = t /\ i_data i = d;
+  (* exactly: the stored pairs are a function of the live list *)
+  abs_exact : forall r0 i, RM (r_root r) r0 i <->
+                exists t d es, In (t, d) L /\ parse t = Ret es /\ tinfo t d es r0 = Some i
 }.
 
 Lemma live_remove_in L t x : In x (live_remove L t) <-> In x L /\ fst x <> t.
@@ -62,6 +65,7 @@ Proof.
   - intros t d [].
   - intros r0 i H. unfold RM, mem_of in H. cbn in H. destruct H.
   - intros t d r0 [].
+  - intros r0 i. split; [intros H; unfold RM, mem_of in H; cbn in H; destruct H|intros (t & d & es & [] & _)].
 Qed.
 
 Lemma abs_unique_owner r L r0 t1 t2 d1 d2 :
@@ -102,6 +106,13 @@ Proof.
     + destruct (abs_complete r L A t0 d0 r0 Hin Hr) as (i & Hi & Hit & Hid).
       exists i. split; [|split; assumption]. apply Hother; [|exact Hi].
       intros e He ->. apply (Hfree e i He Hi).
+  - intros r0 i. destruct (rinsert_ok_exact r t d r' HR H) as (es' & Ep' & Hex). rewrite Ep in Ep'. inversion Ep'; subst es'.
+    rewrite Hex, (abs_exact r L A r0 i). split.
+    + intros [(t0 & d0 & es0 & Hin & Ep0 & Ht0)|Hn]; [exists t0, d0, es0; split; [right; exact Hin|auto]|].
+      exists t, d, es. split; [left; reflexivity|auto].
+    + intros (t0 & d0 & es0 & [Heq|Hin] & Ep0 & Ht0).
+      * inversion Heq; subst t0 d0. rewrite Ep in Ep0. inversion Ep0; subst es0. right. exact Ht0.
+      * left. exists t0, d0, es0. auto.
 Qed.
 
 Lemma abs_delete r L t d r' :
@@ -127,14 +138,23 @@ Proof.
     exists i. split; [|split; assumption]. apply Hother; [|exact Hi].
     intros e He ->. destruct (Hall e He) as (j & Hj & Hjt). destruct HR as [W _].
     rewrite <- (RM_unique _ _ _ _ W Hi Hj) in Hjt. congruence.
+  - intros r0 i. split.
+    + intros Hi. pose proof (Hsub r0 i Hi) as Hold. apply (abs_exact r L A) in Hold as (t0 & d0 & es0 & Hin & Ep0 & Ht0).
+      exists t0, d0, es0. split; [|auto]. apply live_remove_in. split; [exact Hin|]. cbn [fst]. intros ->.
+      rewrite Ep in Ep0. inversion Ep0; subst es0. apply tinfo_some in Ht0 as (e & He & <- & _). apply (Hgone e i He Hi).
+    + intros (t0 & d0 & es0 & Hin & Ep0 & Ht0). apply live_remove_in in Hin as [Hin Hne]. cbn [fst] in Hne.
+      assert (Hold : RM (r_root r) r0 i) by (apply (abs_exact r L A); exists t0, d0, es0; auto).
+      apply Hother; [|exact Hold]. intros e He ->. destruct (Hall e He) as (j & Hj & Hjt). destruct HR as [W _].
+      rewrite <- (RM_unique _ _ _ _ W Hold Hj) in Hjt. apply tinfo_some in Ht0 as (_ & _ & _ & Hit & _). congruence.
 Qed.
 
 Lemma abs_same_root r r' L : Abs r L -> r_root r' = r_root r -> Abs r' L.
 Proof.
-  intros A Hr. destruct A as [HR Hn Hp Hs Hc]. constructor; try assumption.
+  intros A Hr. destruct A as [HR Hn Hp Hs Hc Hx]. constructor; try assumption.
   - unfold RInv in *. rewrite Hr. exact HR.
   - rewrite Hr. exact Hs.
   - rewrite Hr. exact Hc.
+  - rewrite Hr. exact Hx.
 Qed.
 
 Lemma abs_step r L o : Abs r L -> Abs (step r o) (lstep r L o).
@@ -298,3 +318,21 @@ Section Outcomes.
     eapply (TreeCorP.search_complete chk (r_root r') p (exp_route e) i vs); [apply wf_tidy_inv; assumption|exact Hi|exact Hf].
   Qed.
 End Outcomes.
+
+(* C05: routers whose histories left the same set of live (template, data) pairs store the same routes with the
+   same infos, hence answer every path alike *)
+Theorem same_live_same_routes r1 L1 r2 L2 :
+  Abs r1 L1 -> Abs r2 L2 -> (forall x, In x L1 <-> In x L2) ->
+  forall r0 i, RM (r_root r1) r0 i <-> RM (r_root r2) r0 i.
+Proof.
+  intros A1 A2 HL r0 i. rewrite (abs_exact r1 L1 A1), (abs_exact r2 L2 A2).
+  split; intros (t & d & es & Hin & H); exists t, d, es; (split; [apply HL; exact Hin|exact H]).
+Qed.
+
+Theorem same_live_same_answers r1 L1 r2 L2 chk p :
+  Abs r1 L1 -> Abs r2 L2 -> (forall x, In x L1 <-> In x L2) ->
+  rsearch chk r1 p = rsearch chk r2 p.
+Proof.
+  intros A1 A2 HL. apply same_RM_search; [apply (abs_inv r1 L1 A1)|apply (abs_inv r2 L2 A2)|].
+  apply (same_live_same_routes r1 L1 r2 L2 A1 A2 HL).
+Qed.
